@@ -5,11 +5,20 @@ from props import names_common as nc
 
 ENGINE = "names"
 RULE = ("person level: every token sequence of length <= 4 (quick; <= 5 sampled in thorough) over the C13 alphabet and names of "
-        "1-9 words with every case pattern in the three comma forms, parse -> merge_last_name_first -> parse; list level: values of "
+        "1-9 words with every case pattern in the three comma forms, and names of 1-5 words (6 in thorough) over 20 words that start "
+        "with letters without case, titlecase letters, cased non-letters, digits of other scripts (stream person-unicode), "
+        "parse -> merge_last_name_first -> parse; list level: values of "
         "1-6 persons (pattern names, short token names, names with a word 'and' to reach the known class K3) joined by and-variants, "
         "split -> parse -> merge -> join -> split -> parse; stack level: a BibTeX entry with author/editor/translator values through "
         "parse_string(append_middleware=[SeparateCoAuthors, SplitNameParts]) and write_string(prepend_middleware=[MergeNameParts, "
-        "MergeCoAuthors]) and again parse_string. distinct = distinct input text per level; non-trivial = the premises of the "
+        "MergeCoAuthors]) and again parse_string; session level (oracle only): programs of 2-5 steps in which ONE set of the four "
+        "middleware objects (allow_inplace_modification drawn per object) serves every parse_string / write_string call, over documents "
+        "of 1-3 entries (sometimes one with an invalid name) whose persons come from a small pool written in several forms (as given, "
+        "last-name-first, '~' or double blanks) so that name strings recur between steps, with edits by the caller in between: before "
+        "writing, edits that keep every person a parsed person (abbreviated first names, first names exchanged, the same NameParts "
+        "held twice, equal copies, persons dropped / reversed, values exchanged between fields), and after each round trip arbitrary "
+        "in-place edits of the NameParts and lists handed out earlier; every step must re-parse (with the shared objects and with new "
+        "ones) to the names that were written. distinct = distinct input text per level; non-trivial = the premises of the "
         "inverse law hold (valid names, non-empty last, no word ending in an odd number of backslashes) and some name has >= 2 words")
 TRUSTED = ["the inverse laws are checked directly on the implementation's outputs (harness/props/c14.py), the known class K3 by "
            "names_common.in_k3"]
@@ -24,14 +33,19 @@ def generate(rng, tier):
     cases = []
     if tier == "quick":
         seqs = list(nc.token_sequences(nc.C13_TOKENS, 4, [5, 6], 8000, rng))
-        n_list, n_stack = 25000, 1500
+        n_list, n_stack, n_sess = 25000, 1500, 500
     else:
         seqs = list(nc.token_sequences(nc.C13_TOKENS, 4, [5, 6, 7], 150000, rng))
-        n_list, n_stack = 400000, 30000
+        n_list, n_stack, n_sess = 400000, 30000, 8000
     uniq = list(dict.fromkeys(seqs))
     pn = list(dict.fromkeys(c13.pattern_names(rng, tier)))
     for s in uniq + pn:
         cases.append({"stream": "person", "input": {"level": "person", "s": s}})
+    # words whose first character is a letter without case, a cased character that is no letter, a titlecase letter, ...:
+    # every way of reading "the case of a word" other than BibTeX's (first letter; not upper = lower) shows here
+    un = unicode_names(rng, tier)
+    for s in un:
+        cases.append({"stream": "person-unicode", "input": {"level": "person", "s": s}})
     for s in ["AA bb CC dd", "aa BB cc", "Aa\\", "Aa\\\\, Bb", "bb Cc, Dd\\\\", "{\\'E}x yy Zz, Jr, Ww", WITNESS_K3]:
         cases.append({"stream": "witness", "input": {"level": "person", "s": s}})
     # list level
@@ -57,7 +71,7 @@ def generate(rng, tier):
                 parts.append(rng.choice(joins))
         cases.append({"stream": "list", "input": {"level": "list", "s": "".join(parts)}})
     # whole stack
-    good = [s for s in pn + short if adm_name(s) and nc.balanced(s) and "\\" not in s.replace("\\'", "")]
+    good = [s for s in pn + short + un[::7] if adm_name(s) and nc.balanced(s) and "\\" not in s.replace("\\'", "")]
     for k in range(n_stack):
         fields = []
         keys = ["author", "editor", "translator", "title", "year"]
@@ -72,11 +86,105 @@ def generate(rng, tier):
                 v = " and ".join(rng.choice(good) if rng.random() < 0.97 else rng.choice(["xx~and B C", "AND Y X"]) for _ in range(n))
                 fields.append([key, v])
         cases.append({"stream": "stack", "input": {"level": "stack", "fields": fields}})
+    # sessions: one set of middleware objects for a whole multi-step program, results edited by the caller in between
+    for _ in range(n_sess):
+        cases.append({"stream": "session", "input": gen_session(rng, good, adm_name)})
     return cases
+
+
+UNI_WORDS = ["Aa", "bb", "\u00c9a", "\u00dfa", "\u0414\u0430", "\u0434\u0430", "\u5c71\u7530", "\u05d0\u05d1", "\u0639\u0644",
+             "\u01c5x", "\u02b0x", "\u2167a", "\u2177a", "\u24b6b", "\u24d0B", "11", "\u0663A", "-a", "\u5c71A", "1\u5c71"]
+
+
+def unicode_names(rng, tier):
+    import itertools
+    out = []
+    for n in (1, 2):
+        out += [" ".join(ws) for ws in itertools.product(UNI_WORDS, repeat=n)]
+    for n, k in ((3, 2500), (4, 2500), (5, 1000)) if tier == "quick" else ((3, 8000), (4, 30000), (5, 30000), (6, 10000)):
+        for _ in range(k):
+            ws = [rng.choice(UNI_WORDS) for _ in range(n)]
+            r = rng.random()
+            if r < 0.6:
+                out.append(" ".join(ws))
+            elif r < 0.8:
+                i = rng.randint(1, n - 1)
+                out.append(" ".join(ws[:i]) + ", " + " ".join(ws[i:]))
+            else:
+                i = rng.randint(1, n - 2)
+                j = rng.randint(i + 1, n - 1)
+                out.append(" ".join(ws[:i]) + ", " + " ".join(ws[i:j]) + ", " + " ".join(ws[j:]))
+    return list(dict.fromkeys(out))
+
+
+# ------------------------------------------------------------------ sessions (oracle only)
+NF = ("author", "editor", "translator")
+SESSION_BAD = ["Aa, Bb, Cc, Dd", "Aa Bb,", "Aa Bb and Cc, Dd, Ee, Ff", "bb Cc,, Dd,, Ee"]
+
+
+def name_forms(s, ok):
+    """the same person written in several ways (generator side only; what the forms parse to is not assumed anywhere)"""
+    d = nc.spec_parse(s)
+    out = [s]
+    if d is not None:
+        lf = ", ".join(x for x in (" ".join(d["von"] + d["last"]), " ".join(d["jr"]), " ".join(d["first"])) if x)
+        out += [lf, lf.replace(", ", ","), lf.replace(" ", "  "), " ".join(d["first"] + d["von"] + d["last"])]
+    out += [s.replace(" ", "~"), s.replace(" ", "  "), s.replace("~", " ")]
+    return [v for v in dict.fromkeys(out) if v.strip() == v and ok(v) and nc.balanced(v)]
+
+
+def gen_session(rng, good, ok):
+    pool = [name_forms(rng.choice(good), ok) for _ in range(rng.randint(2, 5))]
+    pool = [f for f in pool if f] or [["Aa Bb"]]
+
+    def value():
+        return " and ".join(rng.choice(rng.choice(pool)) for _ in range(rng.randint(1, 4)))
+
+    def doc():
+        entries = []
+        for _ in range(rng.randint(1, 3)):
+            keys = list(NF)
+            rng.shuffle(keys)
+            fields = [[k, value()] for k in keys[:rng.randint(1, 3)]]
+            if rng.random() < 0.3:
+                fields.insert(rng.randint(0, len(fields)), ["title", rng.choice(["A Title and More", "On {and}", "Xx yy"])])
+            entries.append(fields)
+        if rng.random() < 0.2:     # a block on which the name middleware fails, somewhere among the others
+            keys = list(NF)
+            rng.shuffle(keys)
+            entries.insert(rng.randint(0, len(entries)), [[keys[0], rng.choice(SESSION_BAD)]] +
+                           ([[keys[1], value()]] if rng.random() < 0.5 else []))
+        return entries
+
+    def pre_op():
+        k = rng.choice(["abbrev", "abbrev", "swap_first", "dup", "reverse", "drop", "swap_fields", "fresh_obj", "fresh_list"])
+        return [k, rng.randint(0, 7), rng.randint(0, 255), rng.randint(0, 2)]
+
+    steps = []
+    for _ in range(rng.randint(2, 5)):
+        d = [list(map(list, e)) for e in rng.choice(steps)["doc"]] if steps and rng.random() < 0.35 else doc()
+        pre = [pre_op() for _ in range(rng.randint(1, 3))] if rng.random() < 0.4 else []
+        post = [["scribble", rng.randint(0, 2), rng.randint(0, 3), rng.choice([255, 255, rng.randint(1, 255)])]
+                for _ in range(rng.choice([0, 1, 1, 2, 3]))]
+        if rng.random() < 0.25:
+            post.append(["lists", rng.randint(0, 2), rng.randint(0, 1), 255])
+        steps.append({"doc": d, "pre": pre, "post": post})
+    inplace = [1, 1, 1, 1] if rng.random() < 0.6 else [rng.randint(0, 1) for _ in range(4)]
+    return {"level": "session", "inplace": inplace, "steps": steps}
 
 
 def shrink(case):
     inp = case["input"]
+    if inp["level"] == "session":
+        st = inp["steps"]
+        for i in range(len(st)):
+            if len(st) > 1:
+                yield {"stream": "session", "input": dict(inp, steps=st[:i] + st[i + 1:])}
+        for i, x in enumerate(st):
+            for k in ("pre", "post"):
+                if x[k]:
+                    yield {"stream": "session", "input": dict(inp, steps=st[:i] + [dict(x, **{k: []})] + st[i + 1:])}
+        return
     if inp["level"] in ("person", "list"):
         s = inp["s"]
         for i in range(len(s)):
@@ -103,6 +211,8 @@ def impl(case):
     from bibtexparser.middlewares.names import (InvalidNameError, NameParts, parse_single_name_into_parts as pn,
                                                 split_multiple_persons_names as sp)
     inp = case["input"]
+    if inp["level"] == "session":
+        return impl_session(case)
 
     def parse(s):
         """('ok', dict) | ('inv', code); other exceptions propagate"""
@@ -208,7 +318,6 @@ def impl(case):
     from bibtexparser.middlewares.names import SeparateCoAuthors, SplitNameParts, MergeNameParts, MergeCoAuthors
     fields = inp["fields"]
     text = "@article{key1,\n" + ",\n".join("  %s = {%s}" % (k, v) if k != "year" else "  %s = %s" % (k, v) for k, v in fields) + "\n}\n"
-    NF = ("author", "editor", "translator")
     rec = {"key": "s" + json.dumps(fields), "tags": ["stack"], "nontrivial": True}
     abstract = ()
 
@@ -262,4 +371,191 @@ def impl(case):
     rec["oracle"] = orc
     rec["tags"].append("stack_admissible" if adm else "stack_outside_premises")
     rec["summary"] = repr(text2)[:200]
+    return rec
+
+
+def impl_session(case):
+    """One program: the four middleware objects are created once and serve every parse_string / write_string call of the
+    session; between the calls the caller edits the structured names it was handed.  Property, per step: the library as it is
+    written (names of parsed persons only) re-parses - with the shared objects and with new ones - to the same structured names."""
+    import dataclasses
+    import hashlib
+    import implutil
+    import bibtexparser
+    from bibtexparser.model import Entry
+    from bibtexparser.middlewares.names import SeparateCoAuthors, SplitNameParts, MergeNameParts, MergeCoAuthors, NameParts
+    inp = case["input"]
+    steps = inp["steps"]
+    ip = [bool(x) for x in inp.get("inplace", [1, 1, 1, 1])]
+    rec = {"sx_in": None, "sx_out": None, "key": "S" + hashlib.sha1(json.dumps(inp, sort_keys=True).encode()).hexdigest(),
+           "tags": ["session", "session_steps=%d" % len(steps)], "nontrivial": False}
+    if ip != [True] * 4:
+        rec["tags"].append("session_some_inplace_false")
+    PARSE = [SeparateCoAuthors(allow_inplace_modification=ip[0]), SplitNameParts(allow_inplace_modification=ip[1])]
+    WRITE = [MergeNameParts(allow_inplace_modification=ip[2]), MergeCoAuthors(allow_inplace_modification=ip[3])]
+
+    def doc_text(doc):
+        return "".join("@article{e%d,\n%s\n}\n\n" % (i, ",\n".join("  %s = {%s}" % (k, v) for k, v in fs)) for i, fs in enumerate(doc))
+
+    def name_fields(lib):
+        return [(b.key, f) for b in lib.blocks if isinstance(b, Entry) for f in b.fields if f.key in NF]
+
+    def names_of(lib):
+        out = {}
+        for ek, f in name_fields(lib):
+            if isinstance(f.value, list) and all(isinstance(p, NameParts) for p in f.value):
+                out["%s.%s" % (ek, f.key)] = [nc.parts_dict(p) for p in f.value]
+            else:
+                out["%s.%s" % (ek, f.key)] = "not a list of NameParts: %r" % (f.value,)
+        return out
+
+    def handed(lib):
+        fs = [f for _, f in name_fields(lib) if isinstance(f.value, list)]
+        return [p for f in fs for p in f.value if isinstance(p, NameParts)], [f.value for f in fs]
+
+    def copy_of(p):
+        return NameParts(first=list(p.first), von=list(p.von), last=list(p.last), jr=list(p.jr))
+
+    def apply_pre(op, lib):
+        """edits that keep every person the parse of some name (so the law still speaks about the library)"""
+        kind, a, b, c = op
+        fs = [f for _, f in name_fields(lib) if isinstance(f.value, list) and f.value]
+        persons = [p for f in fs for p in f.value]
+        if not persons:
+            return
+        f = fs[a % len(fs)]
+        v = f.value
+        if kind == "abbrev":
+            for i, p in enumerate(persons):
+                if (b >> (i % 8)) & 1:
+                    new = [w[0] + "." if len(w) > 1 and w.isascii() and w.isalpha() else w for w in p.first]
+                    if c == 0:
+                        p.first[:] = new
+                    else:
+                        p.first = new
+        elif kind == "swap_first":
+            pa, pb = persons[a % len(persons)], persons[b % len(persons)]
+            if pa.first and pb.first:
+                pa.first, pb.first = pb.first, pa.first
+        elif kind == "dup":
+            i = b % len(v)
+            if c == 0:
+                v.append(v[i])                          # the same object held twice
+            elif c == 1:
+                v.insert(i, dataclasses.replace(v[i]))  # another object sharing the word lists
+            else:
+                v.append(copy_of(v[i]))                 # equal, not identical
+        elif kind == "reverse":
+            v.reverse()
+        elif kind == "drop":
+            if len(v) > 1:
+                del v[b % len(v)]
+        elif kind == "swap_fields":
+            g = fs[b % len(fs)]
+            f.value, g.value = g.value, f.value
+        elif kind == "fresh_obj":
+            v[b % len(v)] = copy_of(v[b % len(v)])
+        elif kind == "fresh_list":
+            f.value = list(v)
+
+    def scribble(p, kind):
+        if kind == 0:
+            p.first.insert(0, "Qq")
+            p.last.append("Zz")
+        elif kind == 1:
+            p.first, p.von, p.jr = ["Qq"], ["zz"], ["Jr"]
+        elif kind == 2:
+            for lst in (p.first, p.von, p.last, p.jr):
+                del lst[:]
+            p.last.append("Xx")
+        else:
+            p.first, p.last = p.last, p.first
+
+    def apply_post(op, hs):
+        kind, which, k, sel = op
+        persons, lists = hs[which % len(hs)]
+        if kind == "scribble":
+            for i, p in enumerate(persons):
+                if (sel >> (i % 8)) & 1:
+                    scribble(p, k)
+        else:
+            for lst in lists:
+                if k == 0:
+                    del lst[:]
+                else:
+                    lst.reverse()
+
+    def run_step(st):
+        text = doc_text(st["doc"])
+        lib1 = bibtexparser.parse_string(text, append_middleware=PARSE)
+        got1 = names_of(lib1)
+        for op in st["pre"]:
+            apply_pre(op, lib1)
+        before = names_of(lib1)
+        h1 = handed(lib1)
+        text2 = bibtexparser.write_string(lib1, prepend_middleware=WRITE)
+        lib2 = bibtexparser.parse_string(text2, append_middleware=PARSE)
+        after = names_of(lib2)
+        lib3 = bibtexparser.parse_string(text2, append_middleware=[SeparateCoAuthors(), SplitNameParts()])
+        fresh = names_of(lib3)
+        hs = [h1, handed(lib2), handed(lib3)]
+        for op in st["post"]:          # the caller goes on editing what it was handed; nothing of it is used again
+            apply_post(op, hs)
+        return text, got1, before, text2, after, fresh
+
+    seen, recurs = set(), False
+    verdict = None
+    for k, st in enumerate(steps):
+        g = implutil.guarded(lambda: run_step(st))
+        if g[0] == "exc":
+            verdict = {"ok": False, "detail": "session step %d of %d: %s raised (document %r)" % (k + 1, len(steps), g[2], doc_text(st["doc"]))}
+            break
+        text, got1, before, text2, after, fresh = g[1]
+        # entries made of valid names only (independent name oracle) must be there after the first parse
+        for i, fs in enumerate(st["doc"]):
+            vals = [(fk, nc.ref_split(v)) for fk, v in fs if fk in NF]
+            if all(nc.spec_parse(n) is not None for _, ns in vals for n in ns):
+                for fk, ns in vals:
+                    if "e%d.%s" % (i, fk) not in got1:
+                        verdict = {"ok": False, "detail": "session step %d of %d: e%d.%s = %r (valid names) was not split into "
+                                   "structured names; document %r" % (k + 1, len(steps), i, fk, ns, text)}
+            for _, ns in vals:
+                for n in ns:
+                    recurs = recurs or n in seen
+        if verdict:
+            break
+        for fs in st["doc"]:
+            for fk, v in fs:
+                if fk in NF:
+                    seen.update(nc.ref_split(v))
+        bad_shape = [x for x in before.values() if not isinstance(x, list)]
+        dicts = [d for x in before.values() if isinstance(x, list) for d in x]
+        for d in dicts:
+            seen.add(", ".join(x for x in (" ".join(d["von"] + d["last"]), " ".join(d["jr"]), " ".join(d["first"])) if x))
+        adm = not bad_shape and all(admissible(d) for d in dicts)
+        if adm and dicts and any(len(nc.all_words(d)) >= 2 for d in dicts) and len(steps) >= 2:
+            rec["nontrivial"] = True
+        if bad_shape:
+            verdict = {"ok": False, "detail": "session step %d of %d: %s; document %r" % (k + 1, len(steps), bad_shape[0], text)}
+            break
+        if adm:
+            for label, again in (("the same middleware objects", after), ("new middleware objects", fresh)):
+                if again != before:
+                    key = next(x for x in sorted(set(before) | set(again)) if before.get(x) != again.get(x))
+                    verdict = {"ok": False, "detail": "session step %d of %d (middleware objects shared by all steps, "
+                               "allow_inplace_modification=%r): %s written as %r and re-parsed with %s gives %r; written document %r"
+                               % (k + 1, len(steps), ip, key, before.get(key), label, again.get(key), text2)}
+                    if nc.in_k3(dicts):
+                        verdict["known"] = "K3"
+                    break
+            if verdict:
+                break
+        else:
+            rec["tags"].append("session_step_outside_premises")
+    if recurs:
+        rec["tags"].append("session_name_string_recurs")
+    if any(st["pre"] for st in steps):
+        rec["tags"].append("session_edited_before_write")
+    rec["oracle"] = verdict or {"ok": True, "detail": ""}
+    rec["summary"] = "session of %d steps: %s" % (len(steps), "ok" if verdict is None else verdict["detail"][:160])
     return rec
